@@ -199,6 +199,9 @@ func accumulateStateNeeded(result *StateNeeded, eventType string, sender spec.Se
 		if content.Membership == spec.Join || content.Membership == spec.Knock || content.Membership == spec.Invite {
 			result.JoinRules = true
 		}
+		if content.AuthorizedVia != "" {
+			result.Member = append(result.Member, content.AuthorizedVia)
+		}
 		if content.ThirdPartyInvite != nil {
 			token, tokErr := thirdPartyInviteToken(content.ThirdPartyInvite)
 			if tokErr != nil {
@@ -206,9 +209,6 @@ func accumulateStateNeeded(result *StateNeeded, eventType string, sender spec.Se
 				return
 			}
 			result.ThirdPartyInvite = append(result.ThirdPartyInvite, token)
-		}
-		if content.AuthorizedVia != "" {
-			result.Member = append(result.Member, content.AuthorizedVia)
 		}
 	default:
 		// All other events need:
